@@ -36,7 +36,7 @@ func genSettings(r *vh.Rng) Settings {
 func encLen(s RecSpec) int {
 	n := s.N
 	s.N = 0
-	base := len(NewRec(s).Enc) // includes the 1-byte prefix of the empty text
+	base := len(refEncode(s.want())) // includes the 1-byte prefix of the empty text
 	switch {
 	case n <= 253:
 		return base + n
